@@ -346,6 +346,9 @@ def gen_scenario(seed, force_cfg=None, profile=None, drive=None):
         scn["distinctProtos"] = True
     if r2.random() < 0.2:
         scn["rebuild"] = True
+    if r2.random() < 0.25:
+        scn["dispatcher"] = {"when": r2.choice(["initialize", "initialize", "timer", "telemetry"]),
+                             "oneShot": r2.random() < 0.5}
     return scn, Behaviour(stable_hash("beh", seed), cfg, prof)
 
 
